@@ -61,6 +61,8 @@ class Cfg:
         max_stmts=3,
         allow_zero_len=False,
         hostile_idx=False,
+        empty_branch=0.12,
+        tuple_param=0.15,
         literal_ret=0.0,
         tuple_addr=0.25,
         kw=0.3,
@@ -76,6 +78,8 @@ class Cfg:
         self.max_stmts = max_stmts
         self.allow_zero_len = allow_zero_len
         self.hostile_idx = hostile_idx
+        self.empty_branch = empty_branch
+        self.tuple_param = tuple_param
         self.literal_ret = literal_ret
         self.tuple_addr = tuple_addr
         self.kw = kw
@@ -250,7 +254,12 @@ class Gen:
         for _whole in range(4):
             out = []
             ok = True
-            for _ in range(nb):
+            # sometimes one branch (not the last) is a deterministic function: no random choices
+            empty_at = int(self.rng.integers(0, max(1, nb - 1))) if self.rng.random() < self.cfg.empty_branch else -1
+            for bi in range(nb):
+                if bi == empty_at:
+                    out.append(self.static(0, 1, force_empty=True))
+                    continue
                 for attempt in range(8):
                     b = self.node(d1, scalar_ret=True, exclude=("Switch", "OrElse", "Mix"))
                     if _compatible(out + [b], self.cfg.mixed_lead):
@@ -294,18 +303,22 @@ class Gen:
             post = f"SQ(S(RET)) + {_c(rng)} * S(ARGS)"
         return Dimap(inner, params, specs, pre, post, form="dimap", ret_scalar=not post.startswith("("))
 
-    def static(self, depth, nparams, ret="scalar", names=None, none_second=False, arg_specs=None):
+    def static(self, depth, nparams, ret="scalar", names=None, none_second=False, arg_specs=None, force_empty=False):
         rng = self.rng
         c = self.cfg
         params = names or [f"a{i}" for i in range(nparams)]
         specs = list(arg_specs) if arg_specs is not None else [spec((), "f")] * len(params)
+        if arg_specs is None and names is None and ret == "scalar" and params and rng.random() < c.tuple_param:
+            # one parameter is a structured value (a pair): callers pass a tuple, whose leaves
+            # carry their own change tags
+            specs[int(rng.integers(len(specs)))] = ("t", [spec((), "f"), spec((), "f")])
         env = list(params)
         if none_second:
             env = [params[0]]
             specs = [specs[0], ("none",)]
         shapes = {p: s for p, s in zip(params, specs)}
         nst = int(rng.integers(1, c.max_stmts + 1))
-        if depth <= 0 and rng.random() < 0.05:
+        if (depth <= 0 and rng.random() < 0.05) or force_empty:
             nst = 0
         used = set()
         stmts = []
